@@ -24,6 +24,8 @@ func checkC13(r *Report, p *Program) {
 	r13_4(r, p)
 	rmwResultSet(r, p, "R13.5")
 	failedResultNotUsed(r, p, "R13.7")
+	nilKnownNotDereferenced(r, p, "R13.8")
+	lookupResultsChecked(r, p, "R13.9")
 	// shouldContinueRolling hands latest.desiredChildMap[name] to ApplyUpdate unchecked: what makes that
 	// non-nil is that syncRevisionClaims keeps, for EVERY revision incl. the latest, only names the latest desires
 	r09_5(r, p)
